@@ -657,35 +657,19 @@ def with_rate_faults(rng):
                         ["token"], ["token_expired"], ["out_of_space"], list(TRANSIENT_KINDS), list(TRANSIENT_KINDS)])
     p = rng.choice([0.02, 0.05, 0.1, 0.2])
     plan = dict(rules=[dict(t="rate", seed=rng.randrange(1 << 30), p=p, kinds=kinds, max=rng.choice([3, 10, 40]))])
-    sched = []
+    # every drain of the history stays a real, fault-free drain (the clean domain is about the timing of re-use and of
+    # folder operations relative to quiescent points: a folder rename stays bracketed by drains); the faults hit the
+    # steps before it and everything between two drains
+    sched = [["faults", plan]]
     for a in c["schedule"]:
         if a[0] == "drain":
-            # a drain under faults is a bounded number of fair rounds without a quiet report
-            sched.append(["hook", "steps", rng.randint(2, 6)])
+            sched += [["hook", "steps", rng.randint(0, 4)], ["faults_off"], ["drain"], ["faults", plan]]
         else:
             sched.append(a)
-    c["schedule"] = [["faults", plan]] + sched + [["hook", "steps", rng.randint(0, 4)], ["faults_off"]]
-    # histories whose folder operations were bracketed by drains keep the bracket: faults off, drain, faults on
-    c["schedule"] = _rebracket(c["schedule"], plan)
+    sched += [["hook", "steps", rng.randint(0, 4)], ["faults_off"]]
+    c["schedule"] = sched
     c["c10"] = dict(family="rate", p=p, kinds=kinds)
     return finish_case(c)
-
-
-def _rebracket(sched, plan):
-    """folder rename/delete must stay bracketed by real drains (clean domain): around them the faults pause"""
-    out = []
-    i = 0
-    while i < len(sched):
-        a = sched[i]
-        if (a[0] == "hook" and a[1] == "steps" and i + 2 < len(sched) and sched[i + 1][0] == "user"
-                and sched[i + 2][0] == "hook" and sched[i + 2][1] == "steps"):
-            out += [["faults_off"], ["drain"], ["faults", plan], sched[i + 1], ["hook", "steps", a[2]], ["faults_off"], ["drain"],
-                    ["faults", plan]]
-            i += 3
-        else:
-            out.append(a)
-            i += 1
-    return out
 
 
 def single_fault_cases(base, n_calls, kinds=TRANSIENT_KINDS):
